@@ -26,7 +26,7 @@ func init() {
 				"of every fallible step that precedes it in its function, and every such step's error is checked; addRuleList keeps " +
 				"the previous list on each error edge. R4: the index conversion skips invalid entries and keeps converting the rest.",
 			NotCovered: "behaviour of the HTTP client under each fault kind; atomicity of renameio itself (trusted); disk-full and fsync semantics.",
-			Rules: map[string]string{"C13-R20": "the JSON entry types of the rule-list and blocked-service indexes have only string (or list-of-string) fields, so a malformed entry cannot fail the decoding of the whole index", "C13-R19": "setRuleLists installs a selected rule list only when a loaded version exists, so a list whose first download failed cannot reach a composite filter as nil (table shared with C02-R26)", "C13-R18": "the fixed cache-file names of the indexes, the safe-search and the hash-prefix lists are refused as rule-list keys by the index validation (all copies share one directory)", "C13-R17": "RefreshInitial accepts stale copies on disk (true), the periodic Refresh does not (false), for the storage and the hash-prefix filters", "C13-R16": "a consumer that can reject downloaded text does so before the text replaces the cache file (otherwise the rejected file is what the next start loads)", "C13-R15": "loadIndex (rule lists and blocked services): any load or decoding error rejects the whole index", "C13-R14": "builder wiring of the hash-prefix filters: own ID, cache file, storage and URL each (shared with C11-R11)", "C13-RC": "class rules (error chains, shadowed results, character classes, crossed arguments, pool constructors, array pools, loop completeness, loop-carried buffers, replacing setters, complete clones, Grow arithmetic, pooled-buffer escape, sorted searches, fresh decode targets, per-iteration objects, whole-message copies, codec guards) over the packages this property rests on", "C13-R13": "loadIndex only sorts the decoded entries; none is removed before validation", "C13-R12": "in-place list refresh: engine swap and cache clear under one write lock; same-typed arguments (acceptStale vs cache switches) are not crossed", "C13-R11": "the periodic refresh worker: the loop ends only on shutdown, refreshes on every uninterrupted tick, survives a failed refresh; shutdown refresh exactly when configured; constructor field map", "C13-R9": "an index key is converted to filter.ID only where the same field is validated by filter.NewID in the package", "C13-R10": "components with RefreshInitial are started through it in package cmd, never through their periodic Refresh", "C13-R1": "download / replace protocol tables", "C13-R2": "who may mutate files",
+			Rules: map[string]string{"C13-R23": "validateHTTPURLs: every URL of the environment is required (and so checked to be an HTTP(S) URL) under its own switch: the Enabled field with the URL field's name prefix, a nil test of the same URL, or never; a list whose URL escapes the check can be a file: URI, for which a missing file reads as an empty list", "C13-R22": "hashprefix.Storage.Hashes reads the published table once: count and data come from the same version (shared with C11-R5)", "C13-R21": "every use of an element of a JSON-decoded slice of pointers (rule-list index, blocked-service index) comes after a nil test of the element or after the success of a method that rejects a nil receiver: a `null` entry is an invalid entry, not a panic that ends the refresh loop", "C13-R20": "the JSON entry types of the rule-list and blocked-service indexes have only string (or list-of-string) fields, so a malformed entry cannot fail the decoding of the whole index", "C13-R19": "setRuleLists installs a selected rule list only when a loaded version exists, so a list whose first download failed cannot reach a composite filter as nil (table shared with C02-R26)", "C13-R18": "the fixed cache-file names of the indexes, the safe-search and the hash-prefix lists are refused as rule-list keys by the index validation (all copies share one directory)", "C13-R17": "RefreshInitial accepts stale copies on disk (true), the periodic Refresh does not (false), for the storage and the hash-prefix filters", "C13-R16": "a consumer that can reject downloaded text does so before the text replaces the cache file (otherwise the rejected file is what the next start loads)", "C13-R15": "loadIndex (rule lists and blocked services): any load or decoding error rejects the whole index", "C13-R14": "builder wiring of the hash-prefix filters: own ID, cache file, storage and URL each (shared with C11-R11)", "C13-RC": "class rules (error chains, shadowed results, character classes, crossed arguments, pool constructors, array pools, loop completeness, loop-carried buffers, replacing setters, complete clones, Grow arithmetic, pooled-buffer escape, sorted searches, fresh decode targets, per-iteration objects, whole-message copies, codec guards) over the packages this property rests on", "C13-R13": "loadIndex only sorts the decoded entries; none is removed before validation", "C13-R12": "in-place list refresh: engine swap and cache clear under one write lock; same-typed arguments (acceptStale vs cache switches) are not crossed", "C13-R11": "the periodic refresh worker: the loop ends only on shutdown, refreshes on every uninterrupted tick, survives a failed refresh; shutdown refresh exactly when configured; constructor field map", "C13-R9": "an index key is converted to filter.ID only where the same field is validated by filter.NewID in the package", "C13-R10": "components with RefreshInitial are started through it in package cmd, never through their periodic Refresh", "C13-R1": "download / replace protocol tables", "C13-R2": "who may mutate files",
 				"C13-R3": "commit only after success", "C13-R4": "invalid index entries skipped, not aborting",
 				"C13-R7": "exact HTTP status check; only the size-limited reader that fails at the limit is used on a list's path",
 				"C13-R6": "blocked-service index: any invalid entry rejects the whole update",
@@ -227,6 +227,17 @@ func c13Commit(c *an.Ctx, rule string, fn *ssa.Function, what string, commit ssa
 }
 
 func runC13(c *an.Ctx) {
+	// ---- R23: each list URL is validated under its own switch
+	if n := c13URLSwitches(c, "C13-R23"); n < 10 {
+		c.Und("C13-R23", "URL entries of validateHTTPURLs", token.NoPos, "only %d entries found (10 confirmed by reading)", n)
+	}
+	// ---- R22: one snapshot of the hash table per lookup (shared with C11-R5)
+	c.Floor("C13-R22", 1)
+	c.Borrow("C13-R22", runC11, func(o an.Obligation) bool { return o.Rule == "C11-R5" && strings.Contains(o.Key, "Hashes") })
+	// ---- R21: a `null` element of a downloaded index is rejected, not dereferenced
+	if n := sharedDecodedElementsNilSafe(c, "C13-R21", "filter/"); n < 3 {
+		c.Und("C13-R21", "uses of the elements of the decoded indexes", token.NoPos, "only %d uses of elements of json-tagged []*T fields found under internal/filter (3 confirmed by reading: validate and DownloadURL/Key of the rule-list index, toInternal of the service index)", n)
+	}
 	classSweep(c, "C13")
 	// ---- R19: a rule list that has no loaded version is never installed in a composite filter (table of setRuleLists, shared with C02-R26)
 	c.Floor("C13-R19", 1)
@@ -1522,4 +1533,102 @@ func c13IndexFieldsPlain(c *an.Ctx, rule string) {
 		c.Check(len(bad) == 0, rule, key, obj.Pos(), fmt.Sprintf("%d fields, each a string or a list of strings", st.NumFields()),
 			"fields with a decoding of their own: "+strings.Join(bad, ", ")+": one malformed entry makes the decoding of the whole index fail, so the valid entries are not applied (and a restart on the cached copy fails)")
 	}
+}
+
+// c13URLSwitches: cmd.(*environment).validateHTTPURLs builds a table of
+// {url, name, isRequired}; only required entries are checked to be HTTP(S) URLs.
+// The hash-prefix and index downloads rely on that check: for a file: URI a
+// missing file is read as an empty text and empties the list.  Each entry's
+// isRequired is read from the Enabled field that shares the URL field's name
+// prefix, from a nil test of the same URL field, or is the constant false.
+func c13URLSwitches(c *an.Ctx, rule string) (entries int) {
+	k := "cmd.(*environment).validateHTTPURLs"
+	fn := c.Prog.Fn(k)
+	if fn == nil {
+		c.Und(rule, k, token.NoPos, "anchor not found")
+		return 99
+	}
+	c.Analysed(k)
+	envField := func(v ssa.Value) string {
+		for {
+			switch x := v.(type) {
+			case *ssa.ChangeType:
+				v = x.X
+				continue
+			case *ssa.Convert:
+				v = x.X
+				continue
+			case *ssa.UnOp:
+				if x.Op == token.MUL {
+					if t, f, _, ok := an.FieldOf(x.X); ok && strings.HasSuffix(t, "cmd.environment") {
+						return f
+					}
+				}
+			}
+			return ""
+		}
+	}
+	type entry struct {
+		url, req string
+		pos      token.Pos
+	}
+	byAlloc := map[ssa.Value]*entry{}
+	var order []ssa.Value
+	an.Instrs(fn, func(in ssa.Instruction) {
+		st, ok := in.(*ssa.Store)
+		if !ok {
+			return
+		}
+		fa, ok := st.Addr.(*ssa.FieldAddr)
+		if !ok {
+			return
+		}
+		t, f, _, ok := an.FieldOf(fa)
+		if !ok || !strings.HasSuffix(t, "cmd.urlEnvData") {
+			return
+		}
+		e := byAlloc[fa.X]
+		if e == nil {
+			e = &entry{pos: st.Pos()}
+			byAlloc[fa.X] = e
+			order = append(order, fa.X)
+		}
+		switch f {
+		case "url":
+			e.url = envField(st.Val)
+		case "isRequired":
+			switch v := st.Val.(type) {
+			case *ssa.Const:
+				e.req = "const:" + v.Value.String()
+			case *ssa.BinOp:
+				if v.Op == token.NEQ && an.IsNilConst(v.Y) {
+					e.req = "nonnil:" + envField(v.X)
+				} else {
+					e.req = "?"
+				}
+			default:
+				e.req = "field:" + envField(st.Val)
+			}
+		}
+	})
+	for _, a := range order {
+		e := byAlloc[a]
+		if e.url == "" {
+			continue
+		}
+		entries++
+		prefix := strings.TrimSuffix(strings.TrimSuffix(e.url, "URL"), "Index")
+		ok := false
+		switch {
+		case e.req == "const:false", e.req == "nonnil:"+e.url:
+			ok = true
+		case strings.HasPrefix(e.req, "field:"):
+			sw := strings.TrimPrefix(e.req, "field:")
+			ok = strings.HasSuffix(sw, "Enabled") && strings.TrimSuffix(sw, "Enabled") == prefix
+		}
+		c.Check(ok, rule, k+": "+e.url+" is required under its own switch", e.pos,
+			"isRequired is "+e.req,
+			"isRequired of the entry for "+e.url+" is "+e.req+", not the switch "+prefix+"Enabled of that list: with the list on and the other setting off the URL is not checked at all, and a file: URI (whose missing file reads as an empty list) is accepted")
+	}
+	return entries
 }
